@@ -48,6 +48,12 @@ DICT_KW = {
     "Circle": lambda rng: {"current": gen.g8(rng, -2, 2), "diameter": gen.pos_dim(rng)},
     "Polyline": lambda rng: {"current": gen.g8(rng, -2, 2), "segment_start": gen.vec3(rng, -1, 1),
                              "segment_end": gen.vec3(rng, -1, 1)},
+    "CylinderSegment": lambda rng: {"polarization": gen.nz_vec3(rng), "dimension": gen.source_kw(
+        rng, "CylinderSegment").get("dimension", [0.5, 1.0, 1.0, 0.0, 90.0])},
+    "Tetrahedron": lambda rng: {"polarization": gen.nz_vec3(rng), "vertices": gen.tetra_vertices(rng)},
+    "Triangle": lambda rng: {"polarization": gen.nz_vec3(rng), "vertices": gen.tetra_vertices(rng)[:3]},
+    "TriangularMesh": lambda rng: {"polarization": gen.nz_vec3(rng),
+                                   "mesh": [gen.tetra_vertices(rng)[:3], gen.tetra_vertices(rng)[1:]]},
 }
 
 
@@ -652,6 +658,12 @@ class Sim:
                 k0 = sorted(k for k in kw if k not in ("position", "orientation"))[0]
                 if not isinstance(kw[k0], list) or not isinstance(kw[k0][0], list):
                     kw[k0] = [kw[k0]] * (nvec if rng.random() < 0.85 else nvec + 1)
+            if cls in ("Tetrahedron", "Triangle") and nvec > 1 and rng.random() < 0.7:
+                # one geometry per instance (both chiralities occur among the tetrahedra)
+                fn = gen.tetra_vertices
+                kw["vertices"] = [fn(rng) if cls == "Tetrahedron" else fn(rng)[:3] for _ in range(nvec)]
+                if cls == "Tetrahedron":  # its polarization is registered with ndim 1: give one per instance
+                    kw["polarization"] = [kw["polarization"]] * nvec
             op.update({"dict_cls": cls if rng.random() > 0.03 else "Bogus", "dict_kw": kw,
                        "dict_as_array": rng.random() < 0.7,
                        "observers": [{"arr": gen.path(rng, nvec if rng.random() < 0.8 else 2)}],
